@@ -1,6 +1,7 @@
 // PNM: gil writer (binary P4/P5/P6) + harness encoders for ASCII P1/P2/P3 with comments.
 #include "iosim.hpp"
 #include "fmt_common.hpp"
+#include "iosim_rt.hpp"
 #include <boost/gil/extension/io/pnm.hpp>
 
 namespace sim {
@@ -99,14 +100,43 @@ long declared(Bytes const& b)
     return w * h;
 }
 
+Outcome roundtrip(Json const& plan)
+{
+    std::string v = plan.str("variant");
+    gil::image_write_info<Tag> info;
+    // the gray1 writer accepts exactly gray1_image_t::view_t (static_assert): whole image or sub-view
+    if (v == "gray1") return RoundTrip<Tag, gray1_t, false, false, 0x3u>::run(plan, "pnm", info);
+    if (v == "gray8") return RoundTrip<Tag, gil::gray8_image_t, false>::run(plan, "pnm", info);
+    if (v == "rgb8") return RoundTrip<Tag, gil::rgb8_image_t, true>::run(plan, "pnm", info);
+    Outcome o; o.cls = "skipped:type"; return o;
+}
+
+Outcome paths(Json const& plan)
+{
+    std::string v = plan.str("variant");
+    Bytes bytes;
+    if (!make(v, (int)plan.num("w", 1), (int)plan.num("h", 1), (uint64_t)plan.num("cseed"), bytes)) { Outcome o; o.cls = "skipped:variant"; return o; }
+    using any_t = gil::any_image<gray1_t, gil::gray8_image_t, gil::rgb8_image_t>;
+    static char const* const names[] = {"gray8", "rgb8", "rgba8"};
+    using P3 = gil::gray8_pixel_t; using P4 = gil::rgb8_pixel_t; using P5 = gil::rgba8_pixel_t;
+    PathsCfg cfg;
+    // plain PBM (P1) is read as gray8 (pnm/detail/is_allowed.hpp: "ascii mono images are read gray8_image_t")
+    if (v == "p1" || v == "p1c" || v == "p1d") return PathsFor<Tag, gil::gray8_image_t, any_t, gil::gray8_image_t, P3, P4, P5>::run(plan, bytes, "pnm", cfg, names);
+    if (v == "gray1") return PathsFor<Tag, gray1_t, any_t, gray1_t, P3, P4, P5>::run(plan, bytes, "pnm", cfg, names);
+    if (v == "gray8" || v == "p2" || v == "p2c") return PathsFor<Tag, gil::gray8_image_t, any_t, gil::gray8_image_t, P3, P4, P5>::run(plan, bytes, "pnm", cfg, names);
+    return PathsFor<Tag, gil::rgb8_image_t, any_t, gil::rgb8_image_t, P3, P4, P5>::run(plan, bytes, "pnm", cfg, names);
+}
+
 Format make_format()
 {
     Format f;
     f.name = "pnm"; f.ext = "pnm";
-    f.variants = {{"gray1", "gray1"}, {"gray8", "gray8"}, {"rgb8", "rgb8"}, {"p1", "gray1"}, {"p2", "gray8"}, {"p3", "rgb8"}, {"p1c", "gray1"}, {"p2c", "gray8"}, {"p3c", "rgb8"}, {"p1d", "gray1"}};
+    f.variants = {{"gray1", "gray1"}, {"gray8", "gray8"}, {"rgb8", "rgb8"}, {"p1", "gray8"}, {"p2", "gray8"}, {"p3", "rgb8"}, {"p1c", "gray8"}, {"p2c", "gray8"}, {"p3c", "rgb8"}, {"p1d", "gray8"}};
     f.native_types = {"gray1", "gray8", "rgb8"};
     f.convert_types = {"gray8", "rgb8", "rgba8"};
     f.devices = {"FILE", "istream", "name"};
+    f.write_types = {"gray1", "gray8", "rgb8"};
+    f.roundtrip = roundtrip; f.paths = paths;
     f.make = make; f.read = read; f.fields = fields; f.declared_pixels = declared;
     return f;
 }
